@@ -16,7 +16,7 @@ cd "$ROOT" || exit 2
 BIN="$ROOT/harness/target/release/pv"
 # properties which run the command-line solver rebuild it from /repo's working tree as well
 case "${1:-}" in
-  C06|C13|C14|C15|C20|replay)
+  C06|C11|C13|C14|C15|C20|replay)
     if ! "$ROOT/build_cli.sh"; then
       echo "building the command-line solver failed (see harness/build-cli.log)" >&2
       exit 2
